@@ -115,7 +115,7 @@ def corrupt(kind, X, rng):
         if X['Sigma']:
             faults += ['undeclared-symbol']
     if kind == 'nfa':
-        faults += ['undeclared-symbol']
+        faults += ['undeclared-symbol', 'malformed-symbol', 'malformed-symbol']
     if kind in ('pda', 'tm'):
         faults += ['bad-label']
     if kind == 'pda':
@@ -169,6 +169,14 @@ def corrupt(kind, X, rng):
             T2.append('%s %s %s' % (X['q0'], X['q0'], 'z'))
             if kind == 'dfa':      # keep it deterministic and total apart from the symbol
                 pass
+    elif f == 'malformed-symbol':
+        # a symbol that only STARTS like a word: a,b / a-z / a! (as a declared input symbol, or as a label)
+        bad = rng.choice(['a,b', 'a-z', 'a!', 'b.c', 'x+y'])
+        if rng.random() < 0.5 and any(l.startswith('input_symbols') for l in L2):
+            L2 = [(l + ' ' + bad) if l.startswith('input_symbols') else l for l in L2]
+        else:
+            L2 = [l for l in L2 if not l.startswith('input_symbols')]
+            T2.append('%s %s %s' % (X['q0'], X['q0'], bad))
     elif f == 'bad-label':
         T2.append('%s %s %s' % (X['q0'], X['q0'], rng.choice(['a;xy', 'abc', 'ab,X', 'a,x', ',xy'])))
     lines = L2 + T2
